@@ -71,6 +71,12 @@ check("C10", "model_checking",
       "preemption-bounded schedule DFS with differential serial oracle + explicit-state BFS (aliasing) + supplementary -race pass",
       "DESIGN.md §4 C10")
 
+check("C14", "model_checking",
+      "Two real jsonrpc2.Remote endpoints are joined by an in-memory codec whose sends and receives are scheduling points; both Serve loops, every spawned handleRequest goroutine, the callers and a cancelling thread run as logical threads of the controlled scheduler with statement-granular points in remote.go, client.go, pending.go and server.go. 11 scenarios (2-3 concurrent callers on one side and on both sides, nested call-backs of depth 1-3 in one and both directions, cancellation racing the reply) plus the production pending-table shape scaled to 2/1 are explored over every schedule within the delay bound; each call must return its own token (or context.Canceled), each request be handled exactly once with the arrival connection as context service, and after draining nothing but the two read loops may remain blocked.",
+      "Delay bound 2 (quick) / 3 (thorough) over a deterministic round-robin scheduler; FIFO delivery per direction; sequential consistency.",
+      "delay-bounded schedule DFS on the real Remote under a controlled scheduler",
+      "DESIGN.md §4 C14")
+
 ALL = ["C%02d" % i for i in range(1, 21)]
 NA_REASON = "check not built yet (work in progress; see DESIGN.md §4 for the planned model-checking design)"
 
